@@ -64,7 +64,9 @@ class AddonPersistence(Addon, metaclass=abc.ABCMeta):
                 self.log_warning("Disabling persistent state due to an error")
                 self.persistent = False
             raise
-        if self.persistent and self.sync_state:
+        if self.persistent and self.sync_state and self.is_initialized():
+            # (an uninitialized block has no state to be saved yet; the saved
+            # state it is going to be restored from must not be touched)
             self.save_persistent_state()
         return retval
 
